@@ -167,6 +167,27 @@ func (fg *FG) call(st *State, cc *ssa.CallCommon, in ssa.Instruction, resultOf s
 			env.vars[n] = fg.pureFuncArg(st, args[i], label)
 		}
 	}
+	// proof steps of the caller's contract attached to this callee
+	if fg.c != nil && fg.c.Before != nil {
+		steps := fg.c.Before[c.Key]
+		if len(steps) == 0 {
+			// allow the unqualified key for same-package callees
+			steps = fg.c.Before[strings.TrimPrefix(c.Key, fg.c.Pkg+".")]
+		}
+		if len(steps) > 0 {
+			benv := env.child()
+			for n, v := range fg.params {
+				if _, clash := benv.vars[n]; !clash {
+					benv.vars[n] = v
+				}
+			}
+			benv.old = fg.entrySt
+			for k, sc := range steps {
+				t := benv.tr(sc.E)
+				fg.oblig("assert", fmt.Sprintf("assert:before:%s#%s@%s", c.Key, clauseName(sc, k), label), sc.Tag, fg.guard(), t.T, sc.Src, fmt.Sprintf("%s:%d", sc.File, sc.Line))
+			}
+		}
+	}
 	// preconditions
 	for k, r := range c.Requires {
 		t := env.tr(r.E)
